@@ -3,6 +3,7 @@
 package session
 
 import (
+	"bytes"
 	"encoding/json"
 	"fmt"
 	"math/rand"
@@ -40,6 +41,8 @@ type Action struct {
 	Status bool            `json:"status"`
 	Chg    string          `json:"chg"`
 	How    string          `json:"how"`
+	CutPk  string          `json:"cut_pk"`  // cut sweep (added by the driver, not by TLC): which packet is cut ...
+	CutOff int             `json:"cut_off"` // ... and after how many bytes
 	Cls    string          `json:"cls"`
 	Fn     string          `json:"fn"`
 	Idx    int             `json:"idx"`
@@ -433,12 +436,22 @@ func Replay(mode string, licVer int, storage string, walk []json.RawMessage, lab
 			case "disconnect":
 				c.Send(&mqtt.Disconnect{})
 			case "cut":
-				// the socket closes inside a SUBSCRIBE packet, at a seeded byte offset
+				// the socket closes inside a packet: a SUBSCRIBE at a seeded byte offset, or (cut sweep) the packet and offset
+				// the job names; the cut PUBLISH goes to a channel of the alphabet, so that a broker acting on a truncated
+				// packet would deliver something the model does not allow
 				var buf strings.Builder
-				(&mqtt.Subscribe{MessageID: w.msgID, Subscriptions: []mqtt.TopicQOSTuple{{Topic: []byte(w.key("kAll") + "/cut/here/")}}}).EncodeTo(&buf)
+				if a.CutPk == "pub" {
+					(&mqtt.Publish{Header: mqtt.Header{QOS: 1, Retain: true}, MessageID: w.msgID, Topic: []byte(w.key("kAll") + "/a/"), Payload: []byte("cut-payload")}).EncodeTo(&buf)
+				} else {
+					(&mqtt.Subscribe{MessageID: w.msgID, Subscriptions: []mqtt.TopicQOSTuple{{Topic: []byte(w.key("kAll") + "/cut/here/")}}}).EncodeTo(&buf)
+				}
 				raw := []byte(buf.String())
 				off := 1 + rng.Intn(len(raw)-1)
+				if a.CutOff > 0 {
+					off = 1 + (a.CutOff-1)%(len(raw)-1)
+				}
 				ev["cut_at"] = off
+				ev["cut_pk"] = a.CutPk
 				c.SendRaw(raw[:off])
 				c.C.Close()
 			case "garbage":
@@ -614,6 +627,38 @@ func RunFamily(c *core.Ctx, p Plan) {
 		}
 		for i, w := range Simulate(c, mode, "all", num/3, depth, rng) {
 			jobs = append(jobs, job{mode, w, 100000 + i})
+		}
+		if p.Fam == "ending" {
+			// cut sweep ("each byte offset inside a packet"): sessions that end with a cut are repeated with the cut after
+			// every byte of a SUBSCRIBE and of a retained PUBLISH
+			budget, swept := 1, 0
+			if !c.Quick() {
+				budget = 12
+			}
+			for _, j := range append([]job{}, jobs...) {
+				if j.mode != mode || budget == 0 {
+					continue
+				}
+				last := -1
+				for i, raw := range j.walk {
+					if bytes.Contains(raw, []byte(`"how":"cut"`)) {
+						last = i
+					}
+				}
+				if last < 2 {
+					continue
+				}
+				budget--
+				for _, pk := range []string{"sub", "pub"} {
+					for off := 1; off <= 70; off++ {
+						w := append([]json.RawMessage{}, j.walk...)
+						w[last] = json.RawMessage(strings.TrimSuffix(string(w[last]), "}") + fmt.Sprintf(`,"cut_pk":%q,"cut_off":%d}`, pk, off))
+						jobs = append(jobs, job{mode, w, 300000 + swept})
+						swept++
+					}
+				}
+			}
+			c.Add("cut_sweep_sessions", int64(swept))
 		}
 	}
 	traces := map[string][]*core.Trace{}
